@@ -413,8 +413,61 @@ func c08FirstParamImplicit(r *fw.Rec) {
 	}
 }
 
+// c08LiteralVoidCalls: void calls take no number. The calls are built as struct
+// literals (no cached type yet) among unnamed instructions, with direct,
+// bitcast and function-pointer callees; the first print of the never-numbered
+// function must carry LLVM's numbering (LLVM accepts it), and the second print
+// must be the same text.
+func c08LiteralVoidCalls(r *fw.Rec) {
+	for variant := 0; variant < 4; variant++ {
+		r.Eval(1)
+		var first, second string
+		pan, msg, _ := fw.Guard(func() {
+			m := ir.NewModule()
+			g := m.NewFunc("g", types.Void)
+			h := m.NewFunc("h", types.I32)
+			f := m.NewFunc("f", types.I32, ir.NewParam("", types.I32), ir.NewParam("", types.NewPointer(types.NewFunc(types.Void))))
+			b := f.NewBlock("")
+			a := b.NewAdd(f.Params[0], constant.NewInt(types.I32, 1))
+			var callee value.Value = g
+			switch variant {
+			case 1:
+				callee = f.Params[1]
+			case 2:
+				callee = constant.NewBitCast(h, types.NewPointer(types.NewFunc(types.Void)))
+			}
+			b.Insts = append(b.Insts, &ir.InstCall{Callee: callee})
+			if variant == 3 {
+				b.Insts = append(b.Insts, &ir.InstCall{Callee: h}, &ir.InstCall{Callee: g}) // a non-void literal call takes a number
+			}
+			c := b.NewMul(a, a)
+			b.Insts = append(b.Insts, &ir.InstCall{Callee: callee})
+			d := b.NewSub(c, a)
+			b.NewRet(d)
+			first = f.LLString()
+			second = f.LLString()
+		})
+		key := fmt.Sprintf("literal-void-call/variant-%d", variant)
+		if pan {
+			r.Violate(fw.Violation{Key: key + "/panic", What: "printing a function with void calls built as struct literals panics: " + firstLine(msg)})
+			continue
+		}
+		if first != second {
+			r.Violate(fw.Violation{Key: key + "/prints-differ", What: "the first and the second print of a function with literal-built void calls differ: " + firstDiffLines(first, second), Expected: first, Observed: second})
+			continue
+		}
+		if ok, lmsg, err := llvmref.Accepts("declare void @g()\ndeclare i32 @h()\n" + first); err == nil && !ok {
+			r.Violate(fw.Violation{Key: key + "/numbering-invalid", What: "LLVM rejects the numbering of the first print: " + firstLine(lastDiag(lmsg)), Observed: first})
+			continue
+		}
+		r.Nontrivial(key)
+		r.Tally("api", "literal-void-calls:ok")
+	}
+}
+
 func c08ParamSpellings(r *fw.Rec) {
 	c08FirstParamImplicit(r)
+	c08LiteralVoidCalls(r)
 	rng := r.Ctx().Rand("c08params")
 	for round := 0; round < r.Ctx().Pick(60, 600); round++ {
 		n := 2 + rng.Intn(5)
